@@ -10,6 +10,7 @@ use crate::scn::{Scenario, UnitCtl};
 use crate::world::*;
 use crate::wrun::*;
 use serde::{Deserialize, Serialize};
+use shapefile::dbase;
 use shapefile::ShapeReader;
 
 #[derive(Clone, Debug, Serialize, Deserialize)]
@@ -359,6 +360,61 @@ fn genuine_only(ctx: &mut Ctx, marks: &[RMark], f: &ValidFile, what: &str) {
     }
 }
 
+/// The complete reader over the same (cut or failing) .shp with a whole .dbf whose rows the caller's
+/// row type cannot represent: every row fails to convert, and still a record that is cut, or a read
+/// of the .shp that fails, is reported as that I/O error by the call in progress - the trouble of
+/// the row does not take its place. `cut`: the rank of the record the cut falls in, if any.
+fn pair_route(ctx: &mut Ctx, ty: i32, world: &WorldRef, with_shx: bool, rstack: StackCfg, n: usize, cut: Option<usize>, what: &str) {
+    let crate::rd::Open::Ok(rdr) = crate::rd::open(world, with_shx, rstack) else { return };
+    let Ok(table) = dbase::Reader::new(std::io::Cursor::new(crate::fam_histr::make_dbf(n))) else { return };
+    let mut full = shapefile::Reader::new(rdr, table);
+    let evs = |w: &WorldRef| w.borrow().log.len();
+    // (first event, end event, item class: None = end, Some(Ok(())) = a pair, Some(Err(e)))
+    let r = guarded(|| {
+        let mut out: Vec<(usize, usize, Option<Result<(), RErr>>)> = Vec::new();
+        crate::on_type!(ty, S => {
+            let mut it = full.iter_shapes_and_records_as::<S, crate::fam_histr::BadRow>();
+            for _ in 0..n + 2 {
+                let first = evs(world);
+                let x = it.next();
+                let end = evs(world);
+                let cls = x.map(|x| x.map(|_| ()).map_err(|e| classify(&e)));
+                let stop = !matches!(cls, Some(Err(RErr::Dbase(_))));
+                out.push((first, end, cls));
+                if stop {
+                    break;
+                }
+            }
+        }, ());
+        out
+    });
+    let items = match r {
+        Ok(v) => v,
+        Err(p) => {
+            ctx.fail("C13", "panic", p.site(), format!("{}: the complete reader with a row type that cannot represent the rows: {}", what, p.text()));
+            return;
+        }
+    };
+    ctx.stats.reach("pair-route-with-unrepresentable-rows");
+    if let Some(j) = cut {
+        match items.get(j).map(|x| &x.2) {
+            Some(Some(Err(RErr::Io(_)))) => {}
+            other => ctx.fail("C13", "cut-record-is-io-error", "pair-bad-row", format!("{}: the complete reader (rows that do not convert): the cut record {} was reported as {:?}", what, j, other)),
+        }
+    }
+    let wb = world.borrow();
+    for (ei, e) in wb.log.iter().enumerate() {
+        let Some(k) = e.err else { continue };
+        if (e.kind == OpKind::Read && k == std::io::ErrorKind::Interrupted) || (e.kind == OpKind::Seek && e.fault.is_none()) {
+            continue;
+        }
+        let Some(it) = items.iter().find(|(a, b, _)| ei >= *a && ei < *b) else { continue };
+        if it.2 != Some(Err(RErr::Io(format!("{:?}", k)))) {
+            ctx.fail("C13", "source-error-surfaces", format!("pair-bad-row:{}:{:?}", DEV_NAMES[e.dev as usize], e.kind), format!("{}: the complete reader (rows that do not convert): {:?} on {} failed with {:?} during a next() that returned {:?}", what, e.kind, DEV_NAMES[e.dev as usize], k, it.2));
+        }
+    }
+}
+
 fn is_io(res: &Option<Item>) -> bool {
     matches!(res, Some(Err(RErr::Io(_))))
 }
@@ -442,6 +498,11 @@ pub fn run_case(scn: &RfScn, f: &ValidFile, ctx: &mut Ctx) {
             } else if !matches!(nexts.get(whole).map(|m| &m.res), Some(None)) {
                 ctx.fail("C13", "complete-file-ends", "iter", format!("{}: iteration over the complete file did not end after {} items", what, n));
             }
+            {
+                let w2 = World::with_data(Plan::default(), f.shp[..len].to_vec(), f.shx.clone(), vec![]);
+                let ty = f.expected.first().map(|g| g.ty).unwrap_or(1);
+                pair_route(ctx, ty, &w2, scn.with_shx, scn.rstack, n, if whole < n { Some(whole) } else { None }, &what);
+            }
             if scn.with_shx {
                 for i in 0..n {
                     let Some(m) = marks.iter().find(|m| m.call == format!("read_nth({})", i)) else { continue };
@@ -499,6 +560,11 @@ pub fn run_case(scn: &RfScn, f: &ValidFile, ctx: &mut Ctx) {
             genuine_only(ctx, &marks, f, &what);
             if marks.iter().any(|m| m.panic.is_some()) {
                 return;
+            }
+            {
+                let w2 = World::with_data(plan.clone(), f.shp.clone(), f.shx.clone(), vec![]);
+                let ty = f.expected.first().map(|g| g.ty).unwrap_or(1);
+                pair_route(ctx, ty, &w2, scn.with_shx, scn.rstack, n, None, &what);
             }
             // hard failures must surface from the call in progress, with that error
             let mut hard = false;
